@@ -27,7 +27,7 @@ def coinbase(r, script=None, extra_out=()):
             "vout": [{"value": 50 * 10 ** 8, "script": b"\x51"}] + list(extra_out), "wit": None, "lock": 0}
 
 
-def tx_catalogue(r):
+def tx_catalogue(r, big=False):
     """(name, tx description) single-rule violations and boundary-valid variants"""
     M = gen.MAX_MONEY
     out = []
@@ -56,6 +56,20 @@ def tx_catalogue(r):
     for n in (0, 1, 2, 3, 99, 100, 101, 200):
         out.append(("coinbase-script-%d" % n, coinbase(r, gen.rbytes(r, n))))
     mk("coinbase-negative-output", lambda d: d["vout"][0].update(value=-1), coinbase(r))
+    if big:
+        # the size rule is about the witness-stripped size: 1,000,000 is fine, 1,000,001 is not,
+        # and witness bytes do not count
+        base = valid_tx(r, 1, 1)
+        base["vin"][0]["script"] = b""
+        base["vout"][0]["script"] = b"\x6a"
+        fixed = len(gen.build_tx(base).serialize())
+        for name, extra in (("stripped-size-1000000-ok", 1000000 - fixed - 4), ("stripped-size-1000001", 1000001 - fixed - 4)):
+            d = copy.deepcopy(base)
+            d["vout"][0]["script"] = b"\x6a" + bytes(extra)          # script length prefix grows from 1 to 5 bytes
+            out.append((name, d))
+        d = copy.deepcopy(base)
+        d["wit"] = [[bytes(1000200)]]
+        out.append(("huge-witness-small-stripped-size-ok", d))
     mk("coinbase-no-vout", lambda d: d.update(vout=[]), coinbase(r))
     return out
 
@@ -222,14 +236,17 @@ def drive(tier):
     from bitcoin.core import CheckTransaction, CheckBlock
     R = Recorder()
     r = vlib.rng("c16")
-    cat = tx_catalogue(r)
     for ch in CHAINS:
         bitcoin.SelectParams(ch)
+        cat = tx_catalogue(r, big=(ch == "mainnet"))
         for name, d in cat + [("rand", valid_tx(r, r.randrange(1, 4), r.randrange(1, 4))) for _ in range(10 if tier == "quick" else 200)]:
             for mut in (False, True):
                 tx = gen.build_tx(d, mut)
                 k, v = call(CheckTransaction, tx)
-                R.add("check.tx", {"tx": gen.tx_json(d), "name": name, "mutable": mut}, outcome(k, v), chain=ch)
+                if mut and "size" in name:
+                    continue
+                R.add("check.tx", {"tx": gen.tx_json(d), "name": name, "mutable": mut}, outcome(k, v), chain=ch,
+                      _cost=4000000 if "size" in name else 300)
     for ch in CHAINS:
         bitcoin.SelectParams(ch)
         for name, h, txs, now, pw, mf in block_catalogue(r, tier):
